@@ -637,6 +637,11 @@ def _closed_truth(t):
     if isinstance(t, ast.Compare) and len(t.ops) == 1 and isinstance(
             t.ops[0], (ast.Lt, ast.LtE, ast.Gt, ast.GtE, ast.Eq, ast.NotEq)):
         a, b = _closed_number(t.left), _closed_number(t.comparators[0])
+        if a is None and b is None and isinstance(
+                t.ops[0], (ast.Eq, ast.NotEq)) and all(
+                isinstance(x, ast.Constant) and isinstance(x.value, str)
+                for x in (t.left, t.comparators[0])):
+            a, b = t.left.value, t.comparators[0].value
         if a is None or b is None:
             return None
         op = t.ops[0]
@@ -5576,5 +5581,72 @@ def inline_single_use_generators(fn):
                         continue
                 i += 1
     if done:
+        ast.fix_missing_locations(fn)
+    return done
+
+
+def propagate_block_function_aliases(fn):
+    """`f = module.function` followed, in the same block, by calls `f(..)`
+    (before f is bound again) -> `module.function(..)`; the binding goes
+    once no read of f is left"""
+    stored = set()
+    for n in ast.walk(fn):
+        if isinstance(n, ast.Name) and isinstance(
+                n.ctx, (ast.Store, ast.Del)):
+            stored.add(n.id)
+        elif isinstance(n, ast.arg):
+            stored.add(n.arg)
+    if any(isinstance(n, (ast.Global, ast.Nonlocal)) for n in ast.walk(fn)):
+        return False
+    done = False
+    defs = {}
+    for par in [fn] + list(_walk_own(fn)):
+        for fld in ("body", "orelse", "finalbody"):
+            blk = getattr(par, fld, None)
+            if not isinstance(blk, list):
+                continue
+            for i, st in enumerate(blk):
+                if not (isinstance(st, ast.Assign) and len(st.targets) == 1
+                        and isinstance(st.targets[0], ast.Name)
+                        and isinstance(st.value, ast.Attribute)
+                        and isinstance(st.value.value, ast.Name)
+                        and st.value.value.id not in stored
+                        and st.value.value.id not in ("self", "cls")):
+                    continue
+                x = st.targets[0].id
+                if any(isinstance(d, (ast.Lambda, ast.FunctionDef))
+                       and d is not fn and any(
+                           isinstance(n, ast.Name) and n.id == x
+                           for n in ast.walk(d)) for d in ast.walk(fn)):
+                    continue
+                defs.setdefault(x, []).append((blk, st))
+                for later in blk[i + 1:]:
+                    if isinstance(later, (ast.For, ast.While)) and any(
+                            isinstance(n, ast.Name) and n.id == x
+                            and isinstance(n.ctx, ast.Store)
+                            for n in ast.walk(later)):
+                        break
+                    # reads in this statement (evaluated before a store by
+                    # the same simple statement)
+                    calls = [c for c in ast.walk(later) if isinstance(
+                        c, ast.Call) and isinstance(c.func, ast.Name)
+                        and c.func.id == x]
+                    for c in calls:
+                        c.func = ast.copy_location(clone(st.value), c.func)
+                        done = True
+                    if any(isinstance(n, ast.Name) and n.id == x
+                           and isinstance(n.ctx, ast.Store)
+                           for n in ast.walk(later)):
+                        break
+    if done:
+        for x, ds in defs.items():
+            if not any(isinstance(n, ast.Name) and n.id == x and isinstance(
+                    n.ctx, ast.Load) for n in ast.walk(fn)):
+                for blk, st in ds:
+                    if st in blk:
+                        if len(blk) > 1:
+                            blk.remove(st)
+                        else:
+                            blk[0] = ast.copy_location(ast.Pass(), st)
         ast.fix_missing_locations(fn)
     return done
